@@ -3,6 +3,8 @@
 package websocket
 
 import (
+	"github.com/aukilabs/hagall-common/messages/hagallpb"
+	"github.com/aukilabs/hagall-common/messages/odalpb"
 	"github.com/aukilabs/hagall/internal/verifnd"
 )
 
@@ -13,6 +15,17 @@ func VerifC05Owner() {
 	if s.hasAction {
 		assumeValidTS(s.actSec, s.actNanos)
 	}
+	// a connection that created a persistent entity in A, exercised its owner-only operations on it, left A for
+	// a session of its own and came back: it is a new participant now and owns nothing
+	ret := s.w.newConn()
+	ret.mustJoin(s.a0.sid)
+	eRet := ret.addEntity(true, symPose())
+	ret.do(&hagallpb.EntityUpdatePose{Type: hagallpb.MsgType_MSG_TYPE_ENTITY_UPDATE_POSE, Timestamp: vts(), EntityId: eRet, Pose: &hagallpb.Pose{Px: 1}})
+	ret.do(&odalpb.AssetInstanceAddRequest{Type: odalpb.MsgType_MSG_TYPE_ODAL_ASSET_INSTANCE_ADD_REQUEST, Timestamp: vts(), RequestId: 31, EntityId: eRet, AssetId: "ret-asset"})
+	retOldPid := ret.pid
+	ret.mustJoin("")
+	ret.mustJoin(s.a0.sid)
+	verifnd.Assert(ret.pid != retOldPid, "C05.participant_id_never_reissued")
 	// a participant that joined after the owner of ePers left
 	late := s.w.newConn()
 	late.mustJoin(s.a0.sid)
@@ -23,7 +36,7 @@ func VerifC05Owner() {
 
 	var actor *vConn
 	var ownsEid func(uint32) bool
-	who := verifnd.Choice(3)
+	who := verifnd.Choice(4)
 	whoName := "owner"
 	switch who {
 	case 0:
@@ -32,6 +45,8 @@ func VerifC05Owner() {
 		actor, whoName, ownsEid = s.a1, "other_member", func(e uint32) bool { return e == s.eOther }
 	case 2:
 		actor, whoName, ownsEid = late, "late_joiner", func(e uint32) bool { return false }
+	case 3:
+		actor, whoName, ownsEid = ret, "returned_creator", func(e uint32) bool { return false }
 	}
 	ops := []int{kEntityDelete, kUpdatePose, kAssetAdd}
 	kind := ops[verifnd.Choice(3)]
@@ -40,7 +55,7 @@ func VerifC05Owner() {
 	err := actor.do(r.msg)
 	verifnd.Assert(err == nil, "C05.noerror", whoName, kn)
 	owner := ownsEid(r.eid)
-	exists := verifnd.Or(r.eid == s.eOwn, r.eid == s.eOther, r.eid == s.ePers)
+	exists := verifnd.Or(r.eid == s.eOwn, r.eid == s.eOther, r.eid == s.ePers, r.eid == eRet)
 
 	own := actor.drain()
 	nOK, nErr := 0, 0
@@ -63,7 +78,7 @@ func VerifC05Owner() {
 	}
 	// what the others were told
 	told := 0
-	for _, c := range []*vConn{s.a0, s.a1, s.a2, late, p1} {
+	for _, c := range []*vConn{s.a0, s.a1, s.a2, late, ret, p1} {
 		if c == actor {
 			continue
 		}
